@@ -43,6 +43,8 @@ class DeepONet(Model):
         super().__init__(input_space=trunk_net.input_space, output_space=output_space)
         self.trunk = trunk_net
         self.branch = branch_net
+        # the function set whose functions the stored branch output belongs to
+        self._branch_function_set = None
         self._finalize_trunk_and_branch(output_space, output_neurons)
 
     def _check_trunk_and_branch_correct(self, trunk_net, branch_net):
@@ -90,13 +92,18 @@ class DeepONet(Model):
 
     def _forward_branch(self, function_set, iteration_num=-1, device="cpu"):
         """Branch evaluation for training."""
-        if iteration_num != function_set.current_iteration_num:
+        new_functions = iteration_num != function_set.current_iteration_num
+        if new_functions:
             function_set.current_iteration_num = iteration_num
             function_set.sample_params(device=device)
+        # the branch also has to be evaluated if its stored output belongs to
+        # another function set (conditions that share this model) or a fixed input
+        if new_functions or self._branch_function_set is not function_set:
             discrete_fn_batch = self.branch._discretize_function_set(
                 function_set, device=device
             )
             self.branch(discrete_fn_batch)
+            self._branch_function_set = function_set
 
     def fix_branch_input(self, function, device="cpu"):
         """Fixes the branch net for a given function. this function will then be used
@@ -110,4 +117,5 @@ class DeepONet(Model):
         device : str, optional
             The device where the data lays. Default is 'cpu'.
         """
+        self._branch_function_set = None
         self.branch.fix_input(function, device=device)
